@@ -217,6 +217,21 @@ CLAIMS["C06"] = dict(
          "literal values are C07's; numeric literal formatting by SQLAlchemy is trusted (seed C06_2 lives there).",
     technique="partial evaluation of renderer dispatch x grammar-enumerated vocabularies + receiver-resolved clause coverage matrix")
 
+CLAIMS["C10"] = dict(
+    level="other", engine="pyflow",
+    text="Decides the case-normalisation and resolver discipline that routing rests on, not the routing of every query shape: an "
+         "interprocedural must-analysis over the planner package (methods, nested callbacks, parameters at all internal call "
+         "sites, returns, returned dict entries) proves that every key stored into the catalog by QueryPlanner.__init__, every "
+         "key looked up in databases/projects/integrations/predictor_info, every value compared with a catalog name and every "
+         "FetchDataframeStep(integration=) is lower-cased on every path; both resolvers (resolve_database_table, "
+         "PlanJoinTablesQuery.resolve_table) obey the same decision rule (pop the first part only under len > 1 and normalised "
+         "membership, keep it lower-cased, default namespace otherwise, PlanningException when none); the qualifier is stripped "
+         "under len > 1 and a normalised comparison; table branches are control-dependent on `not a model`; the version suffix "
+         "is returned and appended; the CTE exemption of get_query_info is evaluated on probe names.",
+    note="Table discovery completeness is C13's verdict (a position the walker skips is invisible to routing). Dead code "
+         "(functions referenced nowhere in mindsdb_sql) carries no obligations and is listed in the evidence notes.",
+    technique="interprocedural must-dataflow (case-normalised names) + guard extraction on the sibling resolvers + truth table of the CTE filter")
+
 NA_PENDING = "check under construction in this session; not claimed until its rule module is committed"
 
 
